@@ -411,6 +411,43 @@ impl Sys {
         if flavour == 0 {
             return self.bring_up(connack_props);
         }
+        if flavour == 5 || flavour == 6 || flavour == 7 {
+            // The second connection of a Context whose first connection was ended by the USER's
+            // DISCONNECT - written (5), or failing in the write (6) - or by a graceful server
+            // DISCONNECT (7), with a QoS 1 publish of another caller still unacknowledged (operation 0;
+            // no resume: the session bookkeeping and the identifier counters simply live on).
+            self.auto_exit = false;
+            self.bring_up(vec![]);
+            self.apply(Ev::Start(OpSpec::Publish(PublishSpec::simple(1, "t/first", b"unacknowledged"))));
+            if flavour == 6 {
+                self.apply(Ev::WriteErr);
+            }
+            if flavour == 7 {
+                self.apply(Ev::Deliver(SPacket::Disconnect { reason: 0, props: vec![], form: 1 }));
+            } else {
+                self.apply(Ev::Start(OpSpec::Disconnect(DisconnectSpec::default())));
+            }
+            if self.dead {
+                return;
+            }
+            self.events.push("Reconnect".into());
+            self.classes.push("Reconnect".into());
+            self.w.new_wire();
+            self.m.new_wire();
+            self.connect_with(
+                ConnectSpec::default(),
+                SPacket::Connack {
+                    session_present: false,
+                    reason: 0,
+                    props: connack_props,
+                },
+            );
+            if !self.dead {
+                self.start_run();
+            }
+            self.auto_exit = true;
+            return;
+        }
         if flavour == 3 || flavour == 4 {
             // The SECOND connection of a Context whose first connection ended at an awkward moment:
             //  3 = end-of-stream three bytes into an inbound packet (left-over bytes in the reader);
